@@ -396,6 +396,131 @@ fn thread_body_n(pool: Arc<dyn PoolUT>, sh: Arc<Shared>, me: usize, ops: Vec<Op>
     }
 }
 
+/// Ownership claims for the free-running cells: one small lock per address bucket, so that the
+/// harness' own bookkeeping does not serialise the threads (a global table would leave hardly any
+/// time in which two threads are inside the pool at once).
+struct Claims(Vec<Mutex<Vec<(usize, usize)>>>);
+impl Claims {
+    fn new() -> Self {
+        Claims((0..256).map(|_| Mutex::new(vec![])).collect())
+    }
+    fn bucket(&self, addr: usize) -> &Mutex<Vec<(usize, usize)>> {
+        &self.0[(addr >> 3).wrapping_mul(0x9E37_79B9) >> 7 & 255]
+    }
+    /// returns the current owner if the block is already claimed
+    fn claim(&self, addr: usize, me: usize) -> Option<usize> {
+        let mut g = self.bucket(addr).lock().unwrap();
+        if let Some(e) = g.iter().find(|e| e.0 == addr) {
+            return Some(e.1);
+        }
+        g.push((addr, me));
+        None
+    }
+    fn release(&self, addr: usize) {
+        let mut g = self.bucket(addr).lock().unwrap();
+        if let Some(p) = g.iter().position(|e| e.0 == addr) {
+            g.swap_remove(p);
+        }
+    }
+}
+
+/// Thread body of the free-running cells: same operations, ownership through `Claims`
+/// (claimed after the pool handed the block out, released before it goes back: the claimed
+/// interval lies inside the owned interval, so two claims on one address are two owners).
+fn thread_body_fast(pool: Arc<dyn PoolUT>, sh: Arc<Shared>, claims: Arc<Claims>, me: usize, ops: Vec<Op>, loops: usize) {
+    let mut mine: Vec<Block> = vec![];
+    let mut pat = (me as u8).wrapping_mul(37) | 1;
+    let give_back = |b: Block, whence: &str| {
+        check_pattern(&sh, &b, whence);
+        claims.release(b.addr);
+        if let Err(e) = pool.free(b) {
+            sh.v("free", "refused_valid_block", format!("{whence}: free of a live block failed: {e}"));
+        }
+    };
+    'outer: for _ in 0..loops {
+        for op in &ops {
+            if sh.poisoned.load(Ordering::Relaxed) {
+                break 'outer;
+            }
+            match op {
+                Op::Alloc => {
+                    if mine.len() >= 24 {
+                        continue; // keep the working set small: the pool must not run dry
+                    }
+                    let Ok(mut b) = pool.alloc() else { continue };
+                    if let Some(owner) = claims.claim(b.addr, me) {
+                        sh.v("ownership", "block_shared", format!("thread {me} was handed block {:#x} (+{}) while thread {owner} still owns it", b.addr, b.size));
+                        sh.poisoned.store(true, Ordering::SeqCst);
+                        std::mem::forget(b);
+                        break 'outer;
+                    }
+                    pat = pat.wrapping_add(2) | 1;
+                    b.pattern = pat;
+                    if let Some(p) = b.ptr {
+                        unsafe { std::ptr::write_bytes(p as *mut u8, pat, b.size) };
+                    }
+                    mine.push(b);
+                }
+                Op::Free(i) | Op::HandOff(i, _) => {
+                    if !mine.is_empty() {
+                        let b = mine.remove(idx(*i, mine.len()));
+                        give_back(b, "free");
+                    }
+                }
+            }
+        }
+    }
+    if sh.poisoned.load(Ordering::SeqCst) {
+        for b in mine.drain(..) {
+            std::mem::forget(b);
+        }
+    } else {
+        for b in mine.drain(..) {
+            give_back(b, "epilogue");
+        }
+    }
+}
+
+/// One free-running run: fresh pool, all threads released together, no schedule.
+fn run_once_free(c: &Case, loops: usize) -> Result<Vec<(String, String, String)>, String> {
+    let pool = make_pool(c.pool, c.knob)?;
+    let sh = Arc::new(Shared::default());
+    let claims = Arc::new(Claims::new());
+    let mut pre = vec![];
+    for _ in 0..(c.prefreed % 4) {
+        if let Ok(b) = pool.alloc() {
+            pre.push(b);
+        }
+    }
+    for b in pre {
+        let _ = pool.free(b);
+    }
+    let progs: Vec<Box<dyn FnOnce() + Send>> = c
+        .threads
+        .iter()
+        .enumerate()
+        .map(|(i, ops)| {
+            let (p, s, cl, ops) = (pool.clone(), sh.clone(), claims.clone(), ops.clone());
+            Box::new(move || thread_body_fast(p, s, cl, i, ops, loops)) as Box<dyn FnOnce() + Send>
+        })
+        .collect();
+    sched::run_free(progs);
+    if !sh.poisoned.load(Ordering::SeqCst) {
+        for a in pool.anomalies() {
+            sh.v("counters", "pool_reported_anomaly", a);
+        }
+        if let Some((ra, rf)) = pool.counters() {
+            if rf > ra {
+                sh.v("counters", "do_not_add_up", format!("pool reports allocations={ra} < deallocations={rf}"));
+            }
+        }
+    } else {
+        std::mem::forget(pool);
+    }
+    let v = sh.viol.lock().unwrap().clone();
+    Ok(v)
+}
+
 struct OneRun {
     res: sched::RunResult,
     viol: Vec<(String, String, String)>,
@@ -525,7 +650,7 @@ impl Prop for P {
         "C08"
     }
     fn rule(&self) -> &'static str {
-        "2-3 threads x 1-6 ops (alloc / free own block / hand a block to another thread) against one pool (secure, lock-free, five-level lock-free, five-level mutex, fixed-capacity, basic) with 0-3 pre-freed blocks, interleaved by a generated schedule consumed at the cfg(zipora_verif) yield points around every free-list head load / next read / CAS (random byte schedules + bounded-exhaustive <=2 forced switches for fixed programs). Oracle: global shadow map (no two live blocks overlap, pattern intact at free), drain at quiescence (each freed block reissued at most once, never a live one, none lost for LIFO pools), public counters add up. plus <pool>_free cells: the same programs looped 60x on 2-6 real unscheduled OS threads, 6 fresh pools per case (race windows that contain no yield point; non-trivial = >= 2 allocating threads). Non-trivial = a context switch taken at a yield point inside a pool operation; distinct by hash of (pool, programs, effective switch sequence)."
+        "2-3 threads x 1-6 ops (alloc / free own block / hand a block to another thread) against one pool (secure, lock-free, five-level lock-free, five-level mutex, fixed-capacity, basic) with 0-3 pre-freed blocks, interleaved by a generated schedule consumed at the cfg(zipora_verif) yield points around every free-list head load / next read / CAS (random byte schedules + bounded-exhaustive <=2 forced switches for fixed programs). Oracle: global shadow map (no two live blocks overlap, pattern intact at free), drain at quiescence (each freed block reissued at most once, never a live one, none lost for LIFO pools), public counters add up. plus <pool>_free cells: the same programs looped 1500x on 2-6 real unscheduled OS threads (working set <= 24 blocks per thread), 2 fresh pools per case, ownership through a bucketed claim table (race windows that contain no yield point; non-trivial = >= 2 allocating threads). Non-trivial = a context switch taken at a yield point inside a pool operation; distinct by hash of (pool, programs, effective switch sequence)."
     }
     fn assumptions(&self) -> Vec<String> {
         vec![
@@ -557,7 +682,7 @@ impl Prop for P {
                 tier.pick(70, 3000),
                 tier.pick(6, 200),
                 (any::<u8>(), 0u8..4, proptest::collection::vec(proptest::collection::vec(op(), 2..=6), 2..=6))
-                    .prop_map(move |(knob, prefreed, threads)| Case { pool: pi, knob, prefreed, threads, schedule: Sch::Free { reps: 6, loops: 60 } }),
+                    .prop_map(move |(knob, prefreed, threads)| Case { pool: pi, knob, prefreed, threads, schedule: Sch::Free { reps: 2, loops: 1500 } }),
             ));
         }
         v
@@ -615,12 +740,12 @@ impl Prop for P {
                     ctx.nontrivial();
                 }
                 for _ in 0..reps {
-                    match run_once_with(&c, None, loops as usize) {
-                        Ok(one) => {
+                    match run_once_free(&c, loops as usize) {
+                        Ok(viol) => {
                             ctx.out.extra_evals += 1;
                             ctx.out.checks += (loops as u64) * c.threads.iter().map(|t| t.len() as u64).sum::<u64>();
-                            if !one.viol.is_empty() {
-                                for (a, cl, d) in one.viol {
+                            if !viol.is_empty() {
+                                for (a, cl, d) in viol {
                                     ctx.fail(&a, "mismatch", &cl, format!("unscheduled OS threads: {d}"));
                                 }
                                 break;
